@@ -252,6 +252,7 @@ pub struct RunRecord {
     pub spill_files_created: usize,
     pub spill_writes: usize,
     pub steps: usize,
+    pub diverged: bool,
     pub panicked: Option<String>,
     /// per step: what the action observed (poll results), for debugging / samples
     pub log: Vec<String>,
@@ -356,7 +357,12 @@ async fn drive(build: &dyn Fn() -> World, prefix: &[usize]) -> (Trace, RunRecord
         }
         let pos = trace.choices.len();
         let choice = if pos < prefix.len() { prefix[pos] } else { 0 };
-        assert!(choice < enabled.len(), "replay diverged: choice {choice} of {} at step {pos}", enabled.len());
+        if choice >= enabled.len() {
+            // replay diverged (nondeterminism inside the subject, e.g. HashMap iteration order): stop here;
+            // the caller sees a trace that does not reproduce its prefix
+            rec.diverged = true;
+            break;
+        }
         trace.choices.push(choice);
         trace.enabled.push(enabled.len());
         let act = enabled[choice].clone();
@@ -529,17 +535,46 @@ impl datafusion_execution::SpillFile for MemSpillFile {
         Some(self.content.lock().len() as u64)
     }
     fn read_stream(&self) -> Result<Pin<Box<dyn Stream<Item = Result<bytes::Bytes>> + Send>>> {
-        // like real (asynchronous) file I/O the first poll is `Pending` (with an immediate wake-up),
-        // so the callers' "data not ready yet" paths are exercised; the bytes are those written
-        // when the read actually happens
-        let content = Arc::clone(&self.content);
-        Ok(Box::pin(futures::stream::once(async move {
-            tokio::task::yield_now().await;
-            Ok(bytes::Bytes::from(content.lock().clone()))
-        })))
+        // Mirrors the OS backend (tokio_util::io::ReaderStream over the file): the first poll is
+        // `Pending` with an immediate wake-up (asynchronous open), every later poll returns the bytes
+        // appended since the previous one (<= 128 KiB), and a poll that finds nothing new is EOF,
+        // after which the stream stays finished.
+        Ok(Box::pin(MemReadStream { content: Arc::clone(&self.content), offset: 0, opened: false, done: false }))
     }
     fn open_writer(&self) -> Result<Box<dyn datafusion_execution::SpillWriter>> {
         Ok(Box::new(MemSpillWriter { content: Arc::clone(&self.content), stats: Arc::clone(&self.stats), faults: self.faults }))
+    }
+}
+
+struct MemReadStream {
+    content: Arc<Mutex<Vec<u8>>>,
+    offset: usize,
+    opened: bool,
+    done: bool,
+}
+
+impl Stream for MemReadStream {
+    type Item = Result<bytes::Bytes>;
+    fn poll_next(mut self: Pin<&mut Self>, cx: &mut Context<'_>) -> Poll<Option<Self::Item>> {
+        if self.done {
+            return Poll::Ready(None);
+        }
+        if !self.opened {
+            self.opened = true;
+            cx.waker().wake_by_ref();
+            return Poll::Pending;
+        }
+        let chunk = {
+            let c = self.content.lock();
+            let end = c.len().min(self.offset + 128 * 1024);
+            c[self.offset..end].to_vec()
+        };
+        if chunk.is_empty() {
+            self.done = true;
+            return Poll::Ready(None);
+        }
+        self.offset += chunk.len();
+        Poll::Ready(Some(Ok(bytes::Bytes::from(chunk))))
     }
 }
 
